@@ -1,155 +1,258 @@
 /-
-  C06 — BLAKE2X XOF.  Statements over XC.Model.C06 (`Xof.read` = the Go Read with its three phases).
+  C06 — BLAKE2X XOF: the bytes read equal the BLAKE2X construction whatever the Read chunking; exactly the
+  declared length is produced before EOF; Write after Read panics.  Statements over XC.Model.C06
+  (`Xof.read` = the Go Read with its three phases); lemmas in XC.Proofs.C06.
 -/
-import XC.Model.C06
-import XC.Props.C05
+import XC.Proofs.C06
 namespace XC.C06
 open XC.C05
 
 variable {X : XAlg}
 
-/-- the full statement of the property over the model: for every accepted (length, key), message, and
-    sequence of Read sizes, the concatenated output is the BLAKE2X stream prefix and EOF is reported
-    exactly once the declared length is exhausted -/
-def readAll (x : Xof X) : List Nat → Xof X × List (Bytes × Bool)
-  | [] => (x, [])
-  | n :: r => let (x', out, eof) := x.read n; let (x'', l) := readAll x' r; (x'', (out, eof) :: l)
+/-! ### absorbing phase -/
 
-def C06_full (X : XAlg) : Prop :=
-  ∀ (length : Nat) (key msg : Bytes) (x0 : Xof X), newXOF X length key = .ok x0 →
-  ∀ (chunks : List Bytes) (reads : List Nat),
-    let x := { x0 with d := chunks.foldl Digest.write x0.d }
-    let outs := (readAll x reads).2
-    (outs.map (·.1)).flatten = blake2xSpec X x0.length key chunks.flatten 0 reads.sum
+/-- the state after Writes (none of them after a Read) -/
+def absorb (x : Xof X) (chunks : List Bytes) : Xof X := { x with d := chunks.foldl Digest.write x.d }
 
-/-! ### each output node is BLAKE2 with the node's parameter block over the root hash -/
+theorem write_absorb (x : Xof X) (h : x.readMode = false) (chunks : List Bytes) :
+    chunks.foldlM (fun x p => x.write p) x = some (absorb x chunks) := by
+  induction chunks generalizing x with
+  | nil => simp [absorb]
+  | cons p r ih =>
+    have hw : x.write p = some { x with d := x.d.write p } := by simp [Xof.write, h]
+    rw [List.foldlM_cons, hw]
+    show List.foldlM (fun x p => x.write p) { x with d := x.d.write p } r = _
+    rw [ih { x with d := x.d.write p } h]
+    simp [absorb]
 
-/-- `initConfig; Write(root); finalize` — whatever state the scratch digest was left in — is the one-block
-    BLAKE2 computation `specLoop (cfgH cfg) 0 root` (counter = |root|, final flag) -/
-theorem nodeHash_eq (L : Laws X.A) (d : Digest X.A) (cfg root : Bytes)
-    (hb : d.block.length = X.A.bs) :
-    (nodeHash X d cfg root).2 = X.A.out (specLoop X.A (X.cfgH cfg) 0 root) ∧
-    (nodeHash X d cfg root).1.block.length = X.A.bs := by
-  let d1 : Digest X.A := { d with offset := 0, c := X.A.cof 0, h := X.cfgH cfg }
-  have hI : Inv d1 := ⟨Nat.zero_le _, hb⟩
-  obtain ⟨t', h1, h2, h3⟩ := write_spec L d1 root 0 hI rfl
-  have hf := finalize_spec L (d1.write root) t' h2 h1
-  have := h3 []
-  simp only [List.append_nil] at this
-  constructor
-  · show X.A.out (d1.write root).finalize = _
-    rw [hf, this]
-    simp [Digest.buf, d1]
-  · exact h2.2
+theorem foldl_write_spec (L : Laws X.A) (chunks : List Bytes) : ∀ (d : Digest X.A) (t : Nat),
+    Inv d → d.c = X.A.cof t →
+    ∃ t', (chunks.foldl Digest.write d).c = X.A.cof t' ∧ Inv (chunks.foldl Digest.write d) ∧
+      ∀ sfx, specLoop X.A (chunks.foldl Digest.write d).h t' ((chunks.foldl Digest.write d).buf ++ sfx) =
+        specLoop X.A d.h t (d.buf ++ chunks.flatten ++ sfx) := by
+  induction chunks with
+  | nil => intro d t hI hc; exact ⟨t, hc, hI, fun sfx => by simp⟩
+  | cons p r ih =>
+    intro d t hI hc
+    obtain ⟨t1, a1, a2, a3⟩ := write_spec L d p t hI hc
+    obtain ⟨t2, b1, b2, b3⟩ := ih (d.write p) t1 a2 a1
+    refine ⟨t2, b1, b2, fun sfx => ?_⟩
+    simp only [List.foldl_cons, List.flatten_cons]
+    rw [b3 sfx, List.append_assoc, a3]
+    simp only [List.append_assoc]
 
-/-! ### Write after Read panics; EOF exactly when nothing remains; byte accounting -/
+/-- the root hash: after NewXOF (or Reset) and any chunking of the message, the first Read's `finalize`
+    yields BLAKE2 of the (keyed) message under the tweaked parameter block — `rootHash` -/
+theorem root_eq_spec (W : XLaws X) (hsz : X.size ≤ X.A.bs) (size : Nat) (key : Bytes) (x0 : Xof X)
+    (h : newXOF X size key = .ok x0) (chunks : List Bytes) :
+    X.A.out (absorb x0 chunks).d.finalize = rootHash X x0.length key chunks.flatten ∧
+    (absorb x0 chunks).d.block.length = X.A.bs := by
+  unfold newXOF at h
+  split at h
+  · cases h
+  · rename_i hk
+    split at h
+    · cases h
+    · injection h with h
+      subst h
+      let d : Digest X.A := { h := X.A.init 0 0, c := X.A.cof 0, size := X.size, block := zeros X.A.bs, offset := 0,
+                              key := copyAt (zeros X.A.bs) 0 key, keyLen := key.length }
+      have hkl : key.length ≤ X.A.bs := by omega
+      have hrel := rel_reset X.size key d (zeros_length _) rfl rfl rfl hkl
+      obtain ⟨hI, _, _, _, _, t, hc, hsp⟩ := hrel
+      -- the XOF's digest is `d.reset` with the tweaked chaining value
+      let len := if size = 0 then X.unknown else size
+      let d0 : Digest X.A := { d.reset with h := X.rootTweak d.reset.h len }
+      have hI0 : Inv d0 := hI
+      have hc0 : d0.c = X.A.cof 0 := by
+        show d.reset.c = _
+        unfold Digest.reset; simp only []; split <;> rfl
+      have hbuf : d0.buf = keyBlock X.A key := by
+        show d.reset.buf = _
+        have hkeylen : d.key.length = X.A.bs := by
+          show (copyAt (zeros X.A.bs) 0 key).length = _
+          rw [copyAt_length _ _ _ (by simp)]; exact zeros_length _
+        unfold Digest.reset Digest.buf keyBlock
+        simp only []
+        by_cases hk0 : key.length > 0
+        · have hne : key.isEmpty = false := by cases key <;> simp_all
+          rw [if_pos hk0]
+          simp only [hne]
+          show List.take X.A.bs (copyAt (zeros X.A.bs) 0 key) = _
+          rw [copyAt_zeros _ _ hkl, List.take_of_length_le]
+          · rfl
+          · simp [zeros_length]; omega
+        · have hnil : key = [] := by cases key <;> simp_all
+          rw [if_neg hk0]
+          simp [hnil]
+      have hh : d0.h = X.rootTweak (X.A.init X.size key.length) len := by
+        show X.rootTweak d.reset.h len = _
+        unfold Digest.reset; simp only []; split <;> rfl
+      obtain ⟨t', b1, b2, b3⟩ := foldl_write_spec W.L chunks d0 0 hI0 hc0
+      have hfin := finalize_spec W.L _ t' b2 b1
+      have := b3 []
+      simp only [List.append_nil] at this
+      refine ⟨?_, b2.2⟩
+      show X.A.out (chunks.foldl Digest.write d0).finalize = _
+      rw [hfin, this, hbuf, hh]
+      rfl
 
-theorem fullNodes_fields (keep : Bool) (k : Nat) : ∀ (x : Xof X) (acc : Bytes),
-    (fullNodes X keep k x acc).1.readMode = x.readMode ∧
-    (fullNodes X keep k x acc).1.remaining = x.remaining - k * X.size ∧
-    (fullNodes X keep k x acc).1.offset = x.offset ∧
-    (fullNodes X keep k x acc).1.length = x.length ∧
-    (fullNodes X keep k x acc).1.root = x.root := by
-  induction k with
-  | zero => intro x acc; simp [fullNodes]
-  | succ k ih =>
-    intro x acc
-    simp only [fullNodes]
-    obtain ⟨h1, h2, h3, h4, h5⟩ := ih
-      { x with cfg := setBytes x.cfg 8 (le32n x.nodeOffset), nodeOffset := (x.nodeOffset + 1) % 4294967296,
-               d := (nodeHash X x.d (setBytes x.cfg 8 (le32n x.nodeOffset)) x.root).1,
-               block := (nodeHash X x.d (setBytes x.cfg 8 (le32n x.nodeOffset)) x.root).2,
-               remaining := x.remaining - X.size }
-      (if keep then acc ++ (nodeHash X x.d (setBytes x.cfg 8 (le32n x.nodeOffset)) x.root).2 else acc)
-    refine ⟨h1, ?_, h3, h4, h5⟩
-    rw [h2, Nat.succ_mul]
-    simp only []
-    omega
+/-! ### main theorem -/
 
-theorem readNodes_fields (x : Xof X) (keep : Bool) (n : Nat) (acc : Bytes) :
-    (x.readNodes keep n acc).1.readMode = x.readMode ∧
-    (x.readNodes keep n acc).1.remaining = x.remaining - n ∧
-    (x.readNodes keep n acc).1.length = x.length ∧ (x.readNodes keep n acc).1.root = x.root := by
-  obtain ⟨h1, h2, _, h4, h5⟩ := fullNodes_fields keep (n / X.size) x acc
-  have hdm := Nat.div_add_mod n X.size
-  rw [Nat.mul_comm] at hdm
-  unfold Xof.readNodes
-  simp only []
-  split
-  · simp only [Xof.partialNode, h1, h2, h4, h5]
-    refine ⟨trivial, ?_, trivial, trivial⟩
-    omega
-  · rename_i hz
-    refine ⟨h1, ?_, h4, h5⟩
-    rw [h2]
-    have : n % X.size = 0 := by omega
-    omega
-
-theorem enterRead_fields (x : Xof X) :
-    x.enterRead.readMode = true ∧ x.enterRead.remaining = x.remaining ∧ x.enterRead.length = x.length := by
+theorem enterRead_idem (x : Xof X) : x.enterRead.enterRead = x.enterRead := by
   unfold Xof.enterRead
   split <;> simp_all
 
-/-- every Read leaves the XOF in read mode, returns EOF exactly when nothing remained, and consumes
-    `min(len(p), remaining)` of the remaining budget -/
-theorem readG_fields (x : Xof X) (keep : Bool) (n : Nat) :
-    (x.readG keep n).1.readMode = true ∧
-    ((x.readG keep n).2.2 = true ↔ x.remaining = 0) ∧
-    (x.readG keep n).1.remaining = x.remaining - min n x.remaining ∧
-    (x.readG keep n).1.length = x.length := by
-  obtain ⟨e1, e2, e3⟩ := enterRead_fields x
-  unfold Xof.readG
-  simp only []
-  by_cases h0 : x.enterRead.remaining = 0
-  · rw [if_pos h0]
-    rw [e2] at h0
-    simp [e1, e2, e3, h0]
-  · rw [if_neg h0]
-    have h0' : x.remaining ≠ 0 := by rw [← e2]; exact h0
-    by_cases ho : x.enterRead.offset > 0
-    · rw [if_pos ho]
-      by_cases hn : min n x.enterRead.remaining < X.size - x.enterRead.offset
-      · rw [if_pos hn]
-        simp [e1, e2, e3, h0']
-      · rw [if_neg hn]
-        obtain ⟨r1, r2, r3, _⟩ := readNodes_fields
-          { x.enterRead with offset := 0, remaining := x.enterRead.remaining - (X.size - x.enterRead.offset) } keep
-          (min n x.enterRead.remaining - (X.size - x.enterRead.offset)) (x.enterRead.block.drop x.enterRead.offset)
-        refine ⟨by rw [r1]; exact e1, by simp [h0'], ?_, by rw [r3]; exact e3⟩
-        rw [r2]
-        simp only [e2] at hn ⊢
-        omega
-    · rw [if_neg ho]
-      obtain ⟨r1, r2, r3, _⟩ := readNodes_fields x.enterRead keep (min n x.enterRead.remaining) []
-      refine ⟨by rw [r1]; exact e1, by simp [h0'], ?_, by rw [r3]; exact e3⟩
-      rw [r2, e2]
+theorem read_enterRead (x : Xof X) (n : Nat) : x.read n = x.enterRead.read n := by
+  unfold Xof.read Xof.readG
+  rw [enterRead_idem]
 
-theorem read_fields (x : Xof X) (n : Nat) :
-    (x.read n).1.readMode = true ∧
-    ((x.read n).2.2 = true ↔ x.remaining = 0) ∧
-    (x.read n).1.remaining = x.remaining - min n x.remaining ∧
-    (x.read n).1.length = x.length := readG_fields x true n
+theorem readAll_enterRead (x : Xof X) (reads : List Nat) :
+    (readAll x reads).2 = (readAll x.enterRead reads).2 := by
+  cases reads with
+  | nil => rfl
+  | cons n r => simp only [readAll, read_enterRead x n]
+
+/-- **Main theorem (C06).**  For every declared length and key accepted by NewXOF, every message in any Write
+    chunking, and every sequence of Read sizes: the concatenated Read outputs are the prefix of the BLAKE2X
+    output (`blake2xSpec`: root hash H0 with the xof length in its parameter block, node i = BLAKE2 with node
+    offset i and digest length min(Size, bytes left) over H0) of length min(Σ sizes, declared length), and a
+    Read reports EOF exactly when the declared length is exhausted. -/
+theorem read_history (W : XLaws X) (hsz : X.size ≤ X.A.bs) (size : Nat) (key : Bytes) (x0 : Xof X)
+    (h : newXOF X size key = .ok x0) (chunks : List Bytes) (reads : List Nat) :
+    ((readAll (absorb x0 chunks) reads).2.map (·.1)).flatten =
+      (blake2xSpec X x0.length key chunks.flatten).take reads.sum := by
+  obtain ⟨hroot, hblk⟩ := root_eq_spec W hsz size key x0 h chunks
+  -- facts about the fresh state
+  have hx0 : x0.readMode = false ∧ x0.offset = 0 ∧ x0.nodeOffset = 0 ∧ x0.remaining = outLen X x0.length ∧
+      x0.cfg = ⟨X.size, 0⟩ ∧ x0.block.length = X.size := by
+    unfold newXOF at h
+    split at h
+    · cases h
+    · split at h
+      · cases h
+      · injection h with h
+        subst h
+        simp [Xof.reset, outLen, zeros_length]
+  obtain ⟨m1, m2, m3, m4, m5, m6⟩ := hx0
+  rw [readAll_enterRead]
+  let x := (absorb x0 chunks).enterRead
+  have hx : x = { absorb x0 chunks with root := X.A.out (absorb x0 chunks).d.finalize, readMode := true } := by
+    show (absorb x0 chunks).enterRead = _
+    unfold Xof.enterRead
+    rw [if_neg (by show ¬ x0.readMode = true; simp [m1])]
+  have hw : WF x0.length (rootHash X x0.length key chunks.flatten) x := by
+    rw [hx]
+    refine ⟨rfl, hroot, rfl, m6, by show x0.offset < X.size; rw [m2]; exact W.size_pos, hblk, ?_⟩
+    intro _
+    show x0.cfg.dlen = X.size
+    rw [m5]
+  obtain ⟨r1, _, _⟩ := readAll_future W _ _ reads x hw
+  rw [r1]
+  have hfut : future x0.length (rootHash X x0.length key chunks.flatten) x =
+      nodesFrom X x0.length (rootHash X x0.length key chunks.flatten) 0 (outLen X x0.length) := by
+    rw [hx]
+    unfold future bufPart
+    simp only []
+    rw [if_neg (by show ¬ x0.offset > 0; omega)]
+    simp only [List.nil_append, List.length_nil, Nat.sub_zero]
+    show nodesFrom X x0.length _ x0.nodeOffset x0.remaining = _
+    rw [m3, m4]
+  rw [hfut]
+  rfl
+
+/-- exactly the declared length (2^32·Size for OutputLengthUnknown) is produced before EOF -/
+theorem total_len (W : XLaws X) (hsz : X.size ≤ X.A.bs) (size : Nat) (key : Bytes) (x0 : Xof X)
+    (h : newXOF X size key = .ok x0) (chunks : List Bytes) (reads : List Nat) :
+    ((readAll (absorb x0 chunks) reads).2.map (·.1)).flatten.length = min reads.sum (outLen X x0.length) := by
+  rw [read_history W hsz size key x0 h chunks reads, List.length_take]
+  unfold blake2xSpec
+  rw [nodesFrom_length W]
+
+/-! ### the two instances -/
+
+theorem u64toLE_len (n : Nat) (w : UInt64) : (u64toLE n w).length = n := by
+  induction n generalizing w with
+  | zero => rfl
+  | succ n ih => simp [u64toLE, ih]
+
+theorem u32toLE_len (n : Nat) (w : UInt32) : (u32toLE n w).length = n := by
+  induction n generalizing w with
+  | zero => rfl
+  | succ n ih => simp [u32toLE, ih]
+
+theorem XB_laws : XLaws XB where
+  L := B_laws
+  size_pos := by decide
+  out_len := by
+    intro h
+    show (outH h).length = 64
+    simp only [outH, List.length_append]
+    show (u64toLE 8 _).length + (u64toLE 8 _).length + (u64toLE 8 _).length + (u64toLE 8 _).length +
+      (u64toLE 8 _).length + (u64toLE 8 _).length + (u64toLE 8 _).length + (u64toLE 8 _).length = 64
+    simp only [u64toLE_len]
+
+theorem XS_laws : XLaws XS where
+  L := S_laws
+  size_pos := by decide
+  out_len := by
+    intro h
+    show (outH h).length = 32
+    simp only [outH, List.length_append]
+    show (u32toLE 4 _).length + (u32toLE 4 _).length + (u32toLE 4 _).length + (u32toLE 4 _).length +
+      (u32toLE 4 _).length + (u32toLE 4 _).length + (u32toLE 4 _).length + (u32toLE 4 _).length = 32
+    simp only [u32toLE_len]
+
+/-- BLAKE2Xb -/
+theorem blake2xb_read_history (size : Nat) (key : Bytes) (x0 : Xof XB) (h : newXOF XB size key = .ok x0)
+    (chunks : List Bytes) (reads : List Nat) :
+    ((readAll (absorb x0 chunks) reads).2.map (·.1)).flatten =
+      (blake2xSpec XB x0.length key chunks.flatten).take reads.sum :=
+  read_history XB_laws (by decide) size key x0 h chunks reads
+
+/-- BLAKE2Xs -/
+theorem blake2xs_read_history (size : Nat) (key : Bytes) (x0 : Xof XS) (h : newXOF XS size key = .ok x0)
+    (chunks : List Bytes) (reads : List Nat) :
+    ((readAll (absorb x0 chunks) reads).2.map (·.1)).flatten =
+      (blake2xSpec XS x0.length key chunks.flatten).take reads.sum :=
+  read_history XS_laws (by decide) size key x0 h chunks reads
+
+/-- a Read on an XOF in read mode reports EOF exactly when nothing remains (from `read_future`) -/
+theorem eof_iff (W : XLaws X) (len : Nat) (h0 : Bytes) (x : Xof X) (n : Nat) (hw : WF len h0 x) :
+    (x.read n).2.2 = true ↔ x.remaining = 0 := (read_future W len h0 x n hw).2.2.2
 
 /-- Write after the first Read panics -/
-theorem write_after_read_panics (x : Xof X) (n : Nat) (p : Bytes) : ((x.read n).1.write p) = none := by
-  simp [Xof.write, (read_fields x n).1]
+theorem write_after_read_panics (W : XLaws X) (len : Nat) (h0 : Bytes) (x : Xof X) (n : Nat) (p : Bytes)
+    (hw : WF len h0 x) : (x.read n).1.write p = none := by
+  have := (read_future W len h0 x n hw).2.2.1.1
+  simp [Xof.write, this]
 
-/-- over a whole sequence of Reads exactly `min(Σ requested, remaining)` of the budget is consumed: with
-    `remaining = outLen` after NewXOF/Reset this is "exactly the declared length before io.EOF" -/
-theorem readAll_remaining (reads : List Nat) : ∀ (x : Xof X),
-    (readAll x reads).1.remaining = x.remaining - min reads.sum x.remaining := by
-  induction reads with
-  | nil => intro x; simp [readAll]
-  | cons n r ih =>
-    intro x
-    simp only [readAll, List.sum_cons]
-    rw [ih, (read_fields x n).2.2.1]
-    omega
-
-/-- Reset sets the budget to the declared length (2^32·Size for OutputLengthUnknown) and leaves read mode -/
-theorem reset_fields (x : Xof X) :
-    x.reset.remaining = outLen X x.length ∧ x.reset.readMode = false ∧ x.reset.offset = 0 ∧ x.reset.nodeOffset = 0 := by
-  simp [Xof.reset, outLen]
+/-- Write after the first Read of a fresh XOF panics -/
+theorem write_after_first_read_panics (x : Xof X) (n : Nat) (p : Bytes) : (x.read n).1.write p = none := by
+  have hr : (x.read n).1.readMode = true := by
+    have he : x.enterRead.readMode = true := by unfold Xof.enterRead; split <;> simp_all
+    have hf : ∀ (keep : Bool) (k : Nat) (y : Xof X) (acc : Bytes), (fullNodes X keep k y acc).1.readMode = y.readMode := by
+      intro keep k
+      induction k with
+      | zero => intros; rfl
+      | succ k ih => intro y acc; simp only [fullNodes]; rw [ih]
+    have hn : ∀ (keep : Bool) (m : Nat) (y : Xof X) (acc : Bytes), (y.readNodes keep m acc).1.readMode = y.readMode := by
+      intro keep m y acc
+      unfold Xof.readNodes
+      simp only []
+      split
+      · simp only [Xof.partialNode]; exact hf _ _ _ _
+      · exact hf _ _ _ _
+    unfold Xof.read Xof.readG
+    simp only []
+    split
+    · exact he
+    · split
+      · split
+        · exact he
+        · rw [hn]; exact he
+      · rw [hn]; exact he
+  simp [Xof.write, hr]
 
 /-- discarding the output (the harness's skip step) leaves exactly the state a normal Read leaves -/
 theorem fullNodes_state (k : Nat) : ∀ (x : Xof X) (keep keep' : Bool) (acc acc' : Bytes),
@@ -184,5 +287,9 @@ theorem newXOF_ok_iff (size : Nat) (key : Bytes) :
   · by_cases h2 : size = X.unknown
     · simp [h1, h2]
     · simp [h1, h2]; omega
+
+/-! non-vacuity -/
+example : ∃ x, newXOF XB 100 [1, 2, 3] = .ok x := (newXOF_ok_iff 100 [1, 2, 3]).mpr (by decide)
+example : ∃ x, newXOF XS 0 [] = .ok x := (newXOF_ok_iff 0 []).mpr (by decide)
 
 end XC.C06
